@@ -1231,5 +1231,136 @@ int main(int argc, char** argv) {
                 }
         }
     }
+    // ================================================================ window shorter than nfft (zero-padded frames)
+    // nwin in {nfft-1, nfft/2, 3}; every overlap accepted by iscola (nfft 16) or the hops (nwin-1)/2, nwin/2, 1 (larger nfft);
+    // signal lengths EXACTLY nwin + k*hop (k = 0, 1, 5) and one sample more / less.  Same value oracle as istft.roundtrip.
+    {
+        std::vector<int> nffts = {16, 64, 256};
+        if (T) nffts.push_back(1024);
+        if (asan_pass) nffts = {16};
+        const OverlapMethod methods[2] = {OverlapMethod::Ola, OverlapMethod::Wola};
+        const char* mname[2] = {"ola", "wola"};
+        for (int nfft : nffts) {
+            if (!ctx.wants("istft.shortwin")) break;
+            std::set<int> nwins = {nfft - 1, nfft / 2, 3};
+            for (int nwin : nwins) {
+                std::vector<Win> wins;
+                wins.push_back({"hann-sym", window::hann(nwin, true)});
+                wins.push_back({"hann-per", window::hann(nwin, false)});
+                wins.push_back({"hamming-sym", window::hamming(nwin, true)});
+                {
+                    arr_real ones(nwin);
+                    for (int i = 0; i < nwin; ++i) ones[i] = 1.0;
+                    wins.push_back({"rect", ones});
+                }
+                for (const Win& W : wins) {
+                    std::set<int> ovs;
+                    if (nfft <= 16) {
+                        for (int ov = 0; ov < nwin; ++ov) ovs.insert(ov);
+                    } else {
+                        for (int hop : {(nwin - 1) / 2, nwin / 2, 1, nwin / 4})
+                            if (hop >= 1 && hop <= nwin) ovs.insert(nwin - hop);
+                    }
+                    for (int ov : ovs) {
+                        bool acc = false;
+                        try {
+                            acc = iscola(W.w, ov, OverlapMethod::Ola) || iscola(W.w, ov, OverlapMethod::Wola);
+                        } catch (const std::exception&) {
+                        }
+                        if (!acc) continue;
+                        const int hop = nwin - ov;
+                        for (int im = 0; im < 2; ++im)
+                            for (int k : {0, 1, 5})
+                                for (int e : {0, 1, -1}) {
+                                    const int nx = nwin + k * hop + e;
+                                    if (nx < nwin) continue;
+                                    if (!ctx.take("istft.shortwin", P().kv("nfft", nfft).kv("nwin", nwin).kv("win", W.name).kv("overlap", ov).kv("method", mname[im]).kv("nx", nx))) continue;
+                                    run_case(ctx, boxed, "stft/istft", [&](Sink& s) {
+                                        s.nontrivial();
+                                        s.note(pfx + fmt("istft.shortwin nfft=%d nwin=%s", nfft, nwin == nfft - 1 ? "nfft-1" : nwin == 3 ? "3" : "nfft/2"));
+                                        for (int l = 0; l < 2; ++l) {
+                                            arr_real xs(nx);
+                                            double xmax = 1;
+                                            fill_signal(xs, l == 0 ? "ramp" : "dense", xmax);
+                                            const auto S = stft(xs, W.w, ov, nfft, StftRange::Onesided);
+                                            const arr_real xr = istft(S, W.w, ov, nfft, StftRange::Onesided, methods[im]);
+                                            s.tick();
+                                            istft_value_ok(s, W.w, nfft, ov, im, xs, xmax, xr, l == 0 ? "ramp" : "dense", "istft.shortwin: |xr-x|/tol_i");
+                                        }
+                                    });
+                                }
+                    }
+                }
+            }
+        }
+    }
+
+    // ================================================================ every public stft / istft overload (include/dsplib/stft.h)
+    //   stft(x, win, overlap, nfft, range = Onesided)        stft(x, nfft, range = Onesided)   [hann(nfft, periodic), overlap nfft/2]
+    //   istft(X, win, overlap, nfft, range = Onesided, method = Wola)    istft(X, nfft, range = Onesided, method = Wola)   [same window / overlap]
+    // Each short / defaulted form must be bit-identical to the fully explicit call it documents, and the round trip
+    // through the short forms must reproduce x (istft value oracle with the documented window and overlap).
+    {
+        std::vector<int> nffts = {8, 16, 64, 256, 1024};
+        if (asan_pass) nffts = {8, 16};
+        const StftRange ranges[3] = {StftRange::Onesided, StftRange::Twosided, StftRange::Centered};
+        const char* rname[3] = {"onesided", "twosided", "centered"};
+        const OverlapMethod methods[2] = {OverlapMethod::Ola, OverlapMethod::Wola};
+        const char* mname[2] = {"ola", "wola"};
+        for (int nfft : nffts)
+            for (int ir = 0; ir < 3; ++ir)
+                for (int im = 0; im < 2; ++im)
+                    for (int nx : {2 * nfft, 3 * nfft + 5}) {
+                        if (!ctx.take("stft.overloads", P().kv("nfft", nfft).kv("range", rname[ir]).kv("method", mname[im]).kv("nx", nx))) continue;
+                        run_case(ctx, boxed, "stft/istft", [&](Sink& s) {
+                            s.nontrivial();
+                            const arr_real win = window::hann(nfft, false);
+                            const int ov = nfft / 2;
+                            auto same_frames = [&](const std::vector<arr_cmplx>& A, const std::vector<arr_cmplx>& B, const char* what) {
+                                s.tick();
+                                bool ok = A.size() == B.size();
+                                for (size_t f = 0; ok && f < A.size(); ++f) ok = bitsame(A[f], B[f]);
+                                if (!ok) s.fail("stft", std::string("overload:") + what, std::string(what) + " differs from the fully explicit call", "bit-identical frames", P().kv("form", what));
+                            };
+                            auto same_sig = [&](const arr_real& A, const arr_real& B, const char* what) {
+                                s.tick();
+                                if (!bitsame(A, B)) {
+                                    int d = 0;
+                                    while (d < A.size() && d < B.size() && biteq(A[d], B[d])) ++d;
+                                    s.fail("istft", std::string("overload:") + what,
+                                           fmt("%s differs from the fully explicit call at sample %d: %.17g vs %.17g (sizes %d / %d)", what, d, d < A.size() ? A[d] : NAN,
+                                               d < B.size() ? B[d] : NAN, A.size(), B.size()),
+                                           "bit-identical output", P().kv("form", what).kv("i", d));
+                                }
+                            };
+                            for (int l = 0; l < 2; ++l) {
+                                arr_real xs(nx);
+                                double xmax = 1;
+                                fill_signal(xs, l == 0 ? "ramp" : "dense", xmax);
+                                const auto S = stft(xs, win, ov, nfft, ranges[ir]);
+                                same_frames(stft(xs, nfft, ranges[ir]), S, "stft(x,nfft,range)");
+                                if (ir == 0) {
+                                    same_frames(stft(xs, nfft), S, "stft(x,nfft)");
+                                    same_frames(stft(xs, win, ov, nfft), S, "stft(x,win,overlap,nfft)");
+                                }
+                                const arr_real xe = istft(S, win, ov, nfft, ranges[ir], methods[im]);
+                                same_sig(istft(S, nfft, ranges[ir], methods[im]), xe, "istft(X,nfft,range,method)");
+                                if (im == 1) {
+                                    same_sig(istft(S, nfft, ranges[ir]), xe, "istft(X,nfft,range)");
+                                    same_sig(istft(S, win, ov, nfft, ranges[ir]), xe, "istft(X,win,overlap,nfft,range)");
+                                    if (ir == 0) {
+                                        same_sig(istft(S, nfft), xe, "istft(X,nfft)");
+                                        same_sig(istft(S, win, ov, nfft), xe, "istft(X,win,overlap,nfft)");
+                                    }
+                                }
+                                // round trip through the short forms only
+                                const arr_real xr = istft(stft(xs, nfft, ranges[ir]), nfft, ranges[ir], methods[im]);
+                                s.tick();
+                                istft_value_ok(s, win, nfft, ov, im, xs, xmax, xr, std::string("short-form round trip, ") + (l == 0 ? "ramp" : "dense"), "stft.overloads: |xr-x|/tol_i");
+                                istft_value_ok(s, win, nfft, ov, im, xs, xmax, xe, std::string("explicit round trip, ") + (l == 0 ? "ramp" : "dense"), "stft.overloads: |xr-x|/tol_i");
+                            }
+                        });
+                    }
+    }
     return ctx.finish();
 }
